@@ -1580,6 +1580,13 @@ func (a *Authenticator) negotiateSecurity(negotiation *SecurityNegotiation) erro
 
 	// Find compatible crypto method - server preference order
 	for _, serverCrypto := range negotiation.ServerConfig.CryptoMethods {
+		// AES (AES-256-GCM) is the only cipher setupStreamEncryption can enable on a
+		// freshly negotiated session. Agreeing on BLOWFISH/3DES would report an
+		// encrypted session while the stream stays in plaintext, so such ciphers are
+		// not candidates even when both sides list them.
+		if serverCrypto != CryptoAES {
+			continue
+		}
 		for _, clientCrypto := range negotiation.ClientConfig.CryptoMethods {
 			if serverCrypto == clientCrypto {
 				negotiation.NegotiatedCrypto = serverCrypto
